@@ -1,6 +1,7 @@
 (* C12 modelrun. K:E - the Adj-RIB-Out model replays the Loc-RIB's calls and the filter replacements
    (Model.AdjRIBOut.step); K:I - Model.ImportReplace.replace_in applied to the observed Adj-RIB-In and Loc-RIB
-   must give the observed Loc-RIB; K:Q - Model.ImportReplace.chain_eqb against filter.Chain.Equal.
+   must give the observed Loc-RIB; K:F - the session's entry points with the skip test
+   (Model.ImportReplace.fam_replace_{import,export}); K:Q - Model.ImportReplace.chain_eqb against filter.Chain.Equal.
    Grammar: harness/cmd/c12/main.go. *)
 let parse_table_h (s : string) : (n * path * bool) list =
   if s = "-" then [] else
@@ -67,6 +68,41 @@ let run_import id ct ops obs =
     end) ops;
   !bad
 
+let run_family st ct ops obs =
+  let (s, _) = parse_sess st in
+  let (imp, exp) = (match String.split_on_char '|' (String.sub ct 1 (String.length ct - 1)) with
+    | [i; e] -> (parse_chain i, parse_chain e) | _ -> failwith "bad chains") in
+  let fam = ref { fam_imp = imp; fam_exp = exp } and a = ref (init exp) in
+  let bad = ref None in
+  List.iteri (fun i optok ->
+    if !bad = None then begin
+      let o = (try List.nth obs i with _ -> "<missing>") in
+      match split_obs o with
+      | [stream; view; rb; lb; la; ta] ->
+        let body = String.sub optok 1 (String.length optok - 1) in
+        (* whatever the Loc-RIB told the Adj-RIB-Out while the op ran *)
+        List.iter (fun (add, pf, p) ->
+          a := step interp s !a (if add then OAdd (pf, p) else ORemove (pf, p))) (parse_stream stream);
+        (match optok.[0] with
+         | 'm' ->
+           let rin = List.map (fun (pf, p, h) -> ((pf, p), h)) (parse_table_h rb) in
+           let loc = List.map (fun (pf, p, _) -> (pf, p)) (parse_table_h lb) in
+           let (f', l') = fam_replace_import (!fam, loc) rin (parse_chain body) in
+           fam := f';
+           let mo = print_sorted l' in
+           if mo <> la then bad := Some (i, "loc-rib " ^ mo, "loc-rib " ^ la)
+         | 'e' ->
+           let (f', a') = fam_replace_export s (!fam, !a) (parse_chain body) (parse_view view) in
+           fam := f'; a := a'
+         | _ -> ());
+        if !bad = None then begin
+          let mo = print_sorted !a.tbl in
+          if mo <> ta then bad := Some (i, "adj-rib-out " ^ mo, "adj-rib-out " ^ ta)
+        end
+      | _ -> bad := Some (i, "<unparsable observation>", o)
+    end) ops;
+  !bad
+
 let run_equal ops obs =
   let bad = ref None in
   List.iteri (fun i optok ->
@@ -93,6 +129,7 @@ let () =
         let bad = (match inp with
           | "K:E" :: st :: ct :: ops -> run_export id st ct ops obs
           | "K:I" :: _ :: ct :: ops -> run_import id ct ops obs
+          | "K:F" :: st :: ct :: ops -> run_family st ct ops obs
           | "K:Q" :: ops -> run_equal ops obs
           | _ -> Some (0, "<bad case>", "")) in
         (match bad with
